@@ -18,8 +18,18 @@ ENC_OK = sockrun.ENC_OK if hasattr(sockrun, "ENC_OK") else 0
 def scripts(rng: random.Random, n: int):
     for _ in range(n):
         s = [("open",), ("adv", 1)]
-        mode = rng.randrange(9)
-        if mode == 8:
+        mode = rng.randrange(10)
+        if mode == 9:
+            # a connection subscriber that sends on the connected notification (what the API classes do), with
+            # messages pending from an outage: the pending ones go first, in order, then the subscriber's
+            s = [("subsend", rng.choice([0, 1, 4]), rng.choice([0, 2, 3])), ("open",), ("adv", 1)]
+            s += [("net", 0, 1), ("rst",), ("adv", 10)]
+            for _ in range(rng.choice([1, 2, 4])):
+                s.append(("send", rng.choice([0, 1, 4]), rng.choice([0, 0, 2, 3])))
+            if rng.random() < 0.4:
+                s.append(("bp", 1))
+            s += [("net", 1, 1), ("adv", 2100), ("adv", rng.choice([50, 1500])), ("bp", 0), ("subsend", -1, 0), ("send", 0, 0), ("adv", 50)]
+        elif mode == 8:
             # close() while another task sends (the send lands after the client closed its transport, before close()
             # returned): it must be refused as not-open and nothing of it may ever be written, also after a re-open
             k, pol = rng.choice([0, 1, 4]), rng.choice([0, 1, 3])
@@ -80,6 +90,7 @@ def monitor(gen: int, script, out, pid0: int) -> list[str]:
     last_order = {}
     pending_close = None
     must_write_from = None
+    sub_send = None
     for idx, (st, evs) in enumerate(zip(script, out)):
         sends = []
         if st[0] == "send":
@@ -89,6 +100,11 @@ def monitor(gen: int, script, out, pid0: int) -> list[str]:
         elif st[0] == "sendclose":
             pending_close = (st[1], st[2])
             continue
+        elif st[0] == "subsend":
+            sub_send = (st[1], st[2]) if st[1] >= 0 else None
+            continue
+        if sub_send is not None and any(e[0] == "open" for e in evs):
+            sends = sends + [sub_send]          # the subscriber's send inside the connected notification
         if pending_close is not None and any(e[0] == "hooksend" for e in evs):
             # the hooked send ran when the client closed its transport
             if st[0] == "close":
@@ -153,7 +169,7 @@ def drain_model_compare(gen: int, script, out, pid0: int):
     """The queue model under back-pressure (coq/sock/Drain.v, extracted case 9) on the same history: sends, clock,
     pause / resume of the transport from the script; link up / down as the implementation's trace shows them.
     -> 'skipped' (outside the model) | None (agree) | description of the first difference"""
-    if any(st[0] in ("sendclose", "failw", "close", "subsend", "trunc", "bad", "eof", "frame", "reset") for st in script):
+    if any(st[0] in ("sendclose", "failw", "close", "trunc", "bad", "eof", "frame", "reset", "burn") for st in script):
         return "skipped"
     cls = sockcorr.cat_classes(gen)
     ops = [0]
@@ -161,6 +177,9 @@ def drain_model_compare(gen: int, script, out, pid0: int):
     next_pid = pid0
     now = 0
     up = False
+    sub = None              # (k, pol) a connection subscriber sends on every connected notification
+    bp_on = False
+    flush_owed = False
     per_step = []           # number of model ops per stimulus
     for st, evs in zip(script, out):
         n0 = len(ops)
@@ -181,12 +200,31 @@ def drain_model_compare(gen: int, script, out, pid0: int):
             now = t[0]
         elif k == "bp":
             ops += [3, 1 if st[1] else 0]
+            bp_on = bool(st[1])
+            if not bp_on and flush_owed:
+                ops += [7]
+                flush_owed = False
+        elif k == "subsend":
+            sub = (st[1], st[2]) if st[1] >= 0 else None
+            if sub is not None and cls[sub[0]] != 0:
+                return "skipped"
         elif k == "rst":
             if up:
                 ops += [5]
                 up = False
         if any(e[0] == "open" for e in evs):
-            ops += [4]
+            if sub is None:
+                ops += [4]
+            else:
+                # connected; the subscriber's send runs inside the notification; then the flush of _connect
+                r, life = sockrun.policy_params(sub[1])
+                ops += [6, 1, r, life]
+                send_pids.append(next_pid)
+                next_pid = (next_pid + 1) % 256
+                if bp_on:
+                    flush_owed = True       # the subscriber's send is suspended in drain(): _connect waits for it
+                else:
+                    ops += [7]
             up = True
         if any(e[0] in ("wfail", "tie", "crash") for e in evs):
             return "skipped"
@@ -217,7 +255,7 @@ def drain_model_compare(gen: int, script, out, pid0: int):
     while j < len(ops):
         t = ops[j]
         op_kinds.append(t)
-        j += {1: 3, 2: 2, 3: 2, 4: 1, 5: 1}[t]
+        j += {1: 3, 2: 2, 3: 2, 4: 1, 5: 1, 6: 1, 7: 1}[t]
     if len(op_kinds) != len(groups):
         return f"model returned {len(groups)} op results for {len(op_kinds)} ops"
     gi = 0
@@ -236,7 +274,7 @@ def drain_model_compare(gen: int, script, out, pid0: int):
                     want_w.append(acc_pid.get(e[1], -1))
             if t == 1:
                 sends_seen += 1
-            consumed += {1: 3, 2: 2, 3: 2, 4: 1, 5: 1}[t]
+            consumed += {1: 3, 2: 2, 3: 2, 4: 1, 5: 1, 6: 1, 7: 1}[t]
             gi += 1
         got_w = [e[3] for e in evs if e[0] == "wrote"]
         got_ref = sum(1 for e in evs if tuple(e) == ("senderr", 3))
